@@ -862,6 +862,12 @@ fn dims_case(ctx: &mut Ctx, id: &str, what: &str, n_poly: usize, t: usize, got: 
 }
 
 fn part_d(ctx: &mut Ctx) {
+    part_d_p(ctx, "C13")
+}
+
+/// `compute_dimensions` against the model with the balancing law, and the exact relative distances, under the ids
+/// of `prop` (C13: the codes' parameters; C19: the proof-size law at sizes no commitment is made for)
+pub fn part_d_p(ctx: &mut Ctx, prop: &str) {
     let mut ladder: Vec<usize> = (1..=64).collect();
     let mut x = 64f64;
     while x < 65536.0 {
@@ -883,7 +889,7 @@ fn part_d(ctx: &mut Ctx) {
     for &(sec, rho) in &[(128usize, 4usize), (128, 2), (80, 2), (100, 8)] {
         let pp = LigeroPCParams::<Fr, MTConfig, ColH>::new(sec, rho, true, (), (), ());
         for &n_poly in &ladder {
-            let id = format!("C13/dims/ligero-{}-{}/{}", sec, rho, n_poly);
+            let id = format!("{}/dims/ligero-{}-{}/{}", prop, sec, rho, n_poly);
             if !ctx.selected(&id) {
                 continue;
             }
@@ -900,7 +906,7 @@ fn part_d(ctx: &mut Ctx) {
     let top = if ctx.thorough { 18 } else { 14 };
     for nv in 0..=top {
         let n_poly = 1usize << nv;
-        let id = format!("C13/dims/brakedown/{}", n_poly);
+        let id = format!("{}/dims/brakedown/{}", prop, n_poly);
         if !ctx.selected(&id) {
             continue;
         }
@@ -919,26 +925,26 @@ fn part_d(ctx: &mut Ctx) {
     for &(sec, rho) in &[(128usize, 4usize), (128, 2), (80, 2), (100, 8), (64, 3)] {
         let pp = LigeroPCParams::<Fr, MTConfig, ColH>::new(sec, rho, true, (), (), ());
         let (d0, d1) = pp.distance();
-        let id = format!("C13/distance/ligero-{}", rho);
+        let id = format!("{}/distance/ligero-{}", prop, rho);
         if (d0 as u128) * (rho as u128) != (d1 as u128) * (rho as u128 - 1) || d1 == 0 {
             ctx.rep.expect_fail(&id, "ligero/distance", &format!("Ligero with rho_inv={} reports relative distance {}/{}, expected {}/{}", rho, d0, d1, rho - 1, rho),
-                format!("# LigeroPCParams::new({}, {}, ..).distance() = ({}, {})\n# rerun: .build/cargo/debug/pcv-harness C13 --only {}\n", sec, rho, d0, d1, id));
+                format!("# LigeroPCParams::new({}, {}, ..).distance() = ({}, {})\n# rerun: .build/cargo/debug/pcv-harness {} --only {}\n", sec, rho, d0, d1, prop, id));
         }
         ctx.rep.case(&format!("ligero distance rho_inv={} -> {}/{}", rho, d0, d1), Some(format!("distance/ligero/{}", rho)));
     }
     for nv in [2usize, 6, 10, 14] {
-        let id = format!("C13/distance/brakedown/{}", nv);
+        let id = format!("{}/distance/brakedown/{}", prop, nv);
         let mut rng = rng_for(ctx.seed, "C13/distance/brakedown", nv as u64);
         if let Ok(pp) = guarded(|| BdParams::default(&mut rng, 1usize << nv, true, (), (), ())) {
             let (d0, d1) = pp.distance();
             if (d0 as u128) * 1521 != (d1 as u128) * 61 || d1 == 0 {
                 ctx.rep.expect_fail(&id, "brakedown/distance", &format!("default Brakedown reports relative distance {}/{} (= {:.6}), expected beta/r = 61/1521 (= {:.6})", d0, d1, d0 as f64 / d1 as f64, 61.0 / 1521.0),
-                    format!("# BrakedownPCParams::default(.., 2^{}, ..).distance() = ({}, {})\n# rerun: .build/cargo/debug/pcv-harness C13 --only {}\n", nv, d0, d1, id));
+                    format!("# BrakedownPCParams::default(.., 2^{}, ..).distance() = ({}, {})\n# rerun: .build/cargo/debug/pcv-harness {} --only {}\n", nv, d0, d1, prop, id));
             }
             ctx.rep.case(&format!("brakedown distance nv={} -> {}/{}", nv, d0, d1), Some(format!("distance/brakedown/{}", nv)));
         }
     }
-    ctx.flush_model("C13-dims");
+    ctx.flush_model(&format!("{}-dims", prop));
 }
 
 pub fn run(ctx: &mut Ctx) {
